@@ -203,13 +203,15 @@ static void signal_def_defaults(struct jls_signal_def_s * def) {
         case 16: d = &SIGNAL_16_DEFAULTS; break;
         case 32: d = &SIGNAL_32_DEFAULTS; break;
         case 64: d = &SIGNAL_64_DEFAULTS; break;
-        default: return;
+        default: d = NULL; break;  // no per-width defaults, jls_core_signal_def_align applies the minimums
     }
 
-    SIGNAL_DEF_DEFAULT(samples_per_data);
-    SIGNAL_DEF_DEFAULT(sample_decimate_factor);
-    SIGNAL_DEF_DEFAULT(entries_per_summary);
-    SIGNAL_DEF_DEFAULT(summary_decimate_factor);
+    if (NULL != d) {
+        SIGNAL_DEF_DEFAULT(samples_per_data);
+        SIGNAL_DEF_DEFAULT(sample_decimate_factor);
+        SIGNAL_DEF_DEFAULT(entries_per_summary);
+        SIGNAL_DEF_DEFAULT(summary_decimate_factor);
+    }
 
     // common parameters
     d = &SIGNAL_32_DEFAULTS;
